@@ -152,11 +152,21 @@ def lib_cases(chk, n):
     rng = chk.rng
     cases, wants = [], []
     comps = ["a", "cond-out", "t1.task.5", "x y", "é", "p.q"]
+    # a real directory reached through a symbolic link (cond-out on another disk): the library must hand back the
+    # paths of COND_OUT / COND_DEPS as they are, not their resolved form
+    from common import new_dir
+
+    scratch = new_dir("c07lib")
+    os.makedirs(os.path.join(scratch, "disk", "outputs", "a", "t1.task.5"))
+    os.symlink(os.path.join(scratch, "disk", "outputs"), os.path.join(scratch, "cond-out"))
     saved = dict(os.environ)
     try:
         for k in range(n):
-            paths = ["/" + "/".join(rng.choice(comps) for _ in range(rng.randint(1, 4))) for _ in range(rng.choice([0, 0, 1, 2, 3]))]
-            outp = "/" + "/".join(rng.choice(comps) for _ in range(rng.randint(1, 4)))
+            pre = (scratch + "/cond-out") if k % 4 == 3 else ""
+            paths = [pre + "/" + "/".join(rng.choice(comps) for _ in range(rng.randint(1, 4))) for _ in range(rng.choice([0, 0, 1, 2, 3]))]
+            outp = pre + "/" + "/".join(rng.choice(comps) for _ in range(rng.randint(1, 4)))
+            if k % 8 == 7:
+                outp = scratch + "/cond-out/a/t1.task.5"
             rel = "/".join(rng.choice(comps) for _ in range(rng.randint(1, 2)))
             os.environ["COND_DEPS"] = ":".join(paths)
             os.environ["COND_OUT"] = outp
